@@ -2048,6 +2048,7 @@ impl StorageEngine {
             let mut shard_guard = old_shard.write().unwrap();
             if let Some(stored_value) = shard_guard.data.remove(old_key) {
                 shard_guard.data.insert(new_key.clone(), stored_value);
+                shard_guard.mark_modified(old_key);
                 shard_guard.mark_modified(&new_key);
                 Ok(())
             } else {
@@ -2073,6 +2074,7 @@ impl StorageEngine {
             // Move the value between shards
             if let Some(stored_value) = old_guard.data.remove(old_key) {
                 new_guard.data.insert(new_key.clone(), stored_value);
+                old_guard.mark_modified(old_key);
                 new_guard.mark_modified(&new_key);
                 Ok(())
             } else {
